@@ -220,6 +220,56 @@ pub fn run_checker(model: &GraphModel, strategy: Strategy, cfg: &RunCfg, want_as
     out
 }
 
+/// The on-demand checker driven step by step before it is told to run to completion: up to
+/// `max_requests` `check_fingerprint` requests for generated-but-unevaluated states, following
+/// the graph (preferring the most recently generated state, i.e. going down a branch first).
+/// Each request waits (bounded) until the visitor has been shown the requested state.
+pub fn run_on_demand_stepwise(model: &GraphModel, cfg: &RunCfg, rng: &mut crate::rng::Rng, max_requests: usize, want_assert: bool) -> RunOut {
+    let log = VisitLog::default();
+    let slog = StateLog::default();
+    let mut cfg2 = cfg.clone();
+    cfg2.visitor = 1;
+    let b = builder(model.clone(), &cfg2, &log, &slog);
+    let mut out = RunOut::default();
+    let start = Instant::now();
+    let mut c = b.spawn_on_demand();
+    let mut frontier: Vec<u32> = model.inits.iter().copied().filter(|s| model.inb[*s as usize]).collect();
+    let mut generated: std::collections::BTreeSet<u32> = frontier.iter().copied().collect();
+    'steps: for _ in 0..max_requests {
+        if frontier.is_empty() {
+            break;
+        }
+        let i = if rng.pct(70) { frontier.len() - 1 } else { rng.below(frontier.len()) };
+        let s = frontier.remove(i);
+        let Some(fp) = std::num::NonZeroU64::new(stateright::verif::fingerprint_of(&s)) else { break };
+        c.check_fingerprint(fp);
+        let t = Instant::now();
+        loop {
+            if log.0.lock().unwrap().iter().any(|p| p.last().map(|x| x.0) == Some(s)) {
+                break;
+            }
+            if t.elapsed() > Duration::from_millis(300) {
+                break 'steps; // the workers may have stopped already (everything discovered)
+            }
+            std::thread::sleep(Duration::from_micros(100));
+        }
+        for e in &model.out[s as usize] {
+            if let Some(t) = e {
+                if model.inb[*t as usize] && generated.insert(*t) {
+                    frontier.push(*t);
+                }
+            }
+        }
+    }
+    c.run_to_completion();
+    wait(&mut c, Strategy::OnDemand, cfg.watchdog, &mut out);
+    out.elapsed = start.elapsed();
+    collect(&c, &mut out, want_assert);
+    out.visits = log.take();
+    out.visited_states = out.visits.iter().map(|p| p.last().unwrap().0).collect();
+    out
+}
+
 /// Same with symmetry reduction (DFS only) through a representative function.
 pub fn run_dfs_symmetry(
     model: &GraphModel,
@@ -238,6 +288,22 @@ pub fn run_dfs_symmetry(
     collect(&c, &mut out, want_assert);
     out.visits = log.take();
     out.visited_states = out.visits.iter().map(|p| p.last().unwrap().0).collect();
+    out
+}
+
+/// Simulation with symmetry reduction through a representative function.
+pub fn run_simulation_symmetry(model: &GraphModel, representative: fn(&u32) -> u32, seed: u64, cfg: &RunCfg) -> RunOut {
+    let log = VisitLog::default();
+    let slog = StateLog::default();
+    let b = builder(model.clone(), cfg, &log, &slog).symmetry_fn(representative);
+    let mut out = RunOut::default();
+    let start = Instant::now();
+    let mut c = b.spawn_simulation(seed, UniformChooser);
+    wait(&mut c, Strategy::Simulation(seed), cfg.watchdog, &mut out);
+    out.elapsed = start.elapsed();
+    collect(&c, &mut out, false);
+    out.visits = log.take();
+    out.visited_states = if cfg.visitor == 2 { slog.take() } else { out.visits.iter().map(|p| p.last().unwrap().0).collect() };
     out
 }
 
